@@ -131,7 +131,9 @@ the distance of `b` from the polygon when that is larger — never more than the
 1e-9 · max(|b|, largest |coordinate|).  A polygon far from the origin relative to its size is judged by
 its size, not by its offset. -/
 def closeC (a b : Rat) (s : AxisScale) : Bool :=
-  decide (absR (a - b) ≤ eps * min (max (absR b) s.m) (max (absR (b - s.off)) (s.ext + s.m / (2:Rat)^20)))
+  -- floor: one step of the subnormal grid, 2^-1074 absolute — the best any float64 answer can do (round h: polygons whose
+  -- whole extent is subnormal; 1e-9 of such an extent is far below the grid and would demand an unrepresentable answer)
+  decide (absR (a - b) ≤ max (eps * min (max (absR b) s.m) (max (absR (b - s.off)) (s.ext + s.m / (2:Rat)^20))) (1 / (2:Rat)^1074))
 
 def fvAgreesC (impl : FVal) (m : FQ) (s : AxisScale) : Bool :=
   match impl, m with
